@@ -14,6 +14,22 @@ class ProcError(Exception):
     pass
 
 
+class _Quiet(Exception):
+    """An exception whose str() is empty and which is falsy."""
+
+    def __str__(self):
+        return ""
+
+    def __bool__(self):
+        return False
+
+
+def _gate_exc(kind):
+    """What a raising callback raises: with a message, without one, falsy, a KeyError, a StopIteration ..."""
+    return [ValueError("gate"), ValueError(), AssertionError(), KeyError(), StopIteration(), _Quiet(), TimeoutError(),
+            RuntimeError(0), LookupError("")][kind % 9]
+
+
 def ev_gate(c, x):
     if c[0] == "const":
         return c[1]
@@ -87,7 +103,11 @@ class C19(Check):
                         "entry": rng.choice(["run", "run", "run", "run_parallel"]),
                         # environment that must be transparent: printing on, benign recording hooks, read-only accessors
                         # and a failed remove_stage between the runs of the same object
-                        "loud": rng.random() < 0.3, "hooks": rng.random() < 0.3, "observe": rng.random() < 0.3})
+                        "loud": rng.random() < 0.3, "hooks": rng.random() < 0.3, "observe": rng.random() < 0.3,
+                        # what raising callbacks raise (message-less, falsy, StopIteration ...)
+                        "exc": rng.randrange(9),
+                        # earlier runs of the same object may see other (equal-but-distinct) inputs and other gate answers
+                        "warm": rng.choice(["same", "same", "equal-distinct", "gates-flipped", "other-input"])})
         return out
 
     def exhaustive_cases(self):
@@ -104,7 +124,9 @@ class C19(Check):
                     out.append({"halt": halt, "max": 10.0, "stages": list(combo), "x": 3,
                                 "mode": ["sequential", "parallel", "conditional", "amplifying"][(len(out) // 7) % 4],
                                 "runs": 1 + (len(out) % 2),
-                                "build": ["add", "insert", "reverse-insert", "dummy-removed", "late-gate", "mixed"][(len(out) // 3) % 6]})
+                                "build": ["add", "insert", "reverse-insert", "dummy-removed", "late-gate", "mixed"][(len(out) // 3) % 6],
+                                "exc": len(out) % 9,
+                                "warm": ["same", "equal-distinct", "gates-flipped", "other-input"][(len(out) // 2) % 4]})
         # the fork pattern: every pipeline of <= 2 (quick) / <= 3 (thorough) stages again through run_parallel
         par = []
         for c in out:
@@ -161,13 +183,16 @@ class C19(Check):
         casc = C.Cascade("c", mode=mode, max_amplification=case["max"], halt_on_failure=case["halt"],
                          silent=not case.get("loud"), **kw)
         built = []
+        phase = {"warm": False}
         for i, s in enumerate(stages):
             def mk(i, s):
                 def checkpoint(x):
                     log.append([i, 0, x])
                     g = ev_gate(s["c"], x)
+                    if phase["warm"] and case.get("warm") in ("gates-flipped", "equal-distinct"):
+                        g = {"GPass": "GReject", "GReject": "GPass", "GRaise": "GPass"}[g]   # the answer was different then
                     if g == "GRaise":
-                        raise ValueError("gate")
+                        raise _gate_exc(case.get("exc", 0) + i)
                     return g == "GPass"
 
                 def processor(x):
@@ -182,7 +207,7 @@ class C19(Check):
                     x = e.args[0] if isinstance(e, ProcError) else -777
                     log.append([i, 2, x])
                     if s["h"][0] == "raise":
-                        raise ValueError("handler")
+                        raise _gate_exc(case.get("exc", 0) + i + 3)
                     return s["h"][1]
                 return C.CascadeStage(name=f"s{i}", processor=processor, amplification=s["f"],
                                       checkpoint=checkpoint if s["c"] else None,
@@ -226,9 +251,14 @@ class C19(Check):
         parallel = case.get("entry") == "run_parallel"
         entry = casc.run_parallel if parallel else casc.run
         earlier = []
+        warm = case.get("warm", "same")
         for _ in range(max(0, case.get("runs", 1) - 1)):
-            r0 = entry(case["x"])
-            earlier.append(self._summary(r0, sorted(log) if parallel else list(log), parallel))
+            phase["warm"] = True
+            x0 = {"same": case["x"], "gates-flipped": case["x"], "equal-distinct": float(case["x"]),
+                  "other-input": case["x"] + 1}[warm]
+            r0 = entry(x0)
+            if warm == "same":
+                earlier.append(self._summary(r0, sorted(log) if parallel else list(log), parallel))
             del log[:]
             if case.get("observe"):
                 casc.get_statistics()
@@ -236,6 +266,7 @@ class C19(Check):
                 casc.remove_stage("no-such-stage")
         hooked["stage"].clear()
         hooked["cascade"].clear()
+        phase["warm"] = False
         res = entry(case["x"])
         if case.get("hooks"):
             done = sorted(r.stage_name for r in res.stage_results if r.status.value == "completed" and r.error is None)
